@@ -32,18 +32,22 @@ pub trait MacroInputs: Sized + 'static {
     fn table<F: for<'i> MockFn<Inputs<'i> = Self>>(pred: u32) -> Option<&'static dyn Fn(&mut Matching<F>)>;
 }
 
+const K0: u8 = 0;
+const K3: u8 = 3;
+
 impl MacroInputs for u8 {
     fn table<F: for<'i> MockFn<Inputs<'i> = u8>>(pred: u32) -> Option<&'static dyn Fn(&mut Matching<F>)> {
         Some(match pred & 0xf {
             0x0 => matching!((x) if *x > 200),
-            0x1 => matching!(0),
+            // a constant used as a pattern (a bare identifier that is *not* a binding)
+            0x1 => matching!(&K0),
             0x2 => matching!(1),
             0x3 => matching!(0 | 1),
             0x4 => matching!(2),
             0x5 => matching!(0 | 2),
             0x6 => matching!(1..=2),
             0x7 => matching!(0..=2),
-            0x8 => matching!(3),
+            0x8 => matching!(&K3),
             0x9 => matching!(0 | 3),
             0xa => matching!(1 | 3),
             0xb => matching!((x) if *x != 2),
@@ -81,7 +85,7 @@ macro_rules! no_macro_inputs {
         }
     )*};
 }
-no_macro_inputs!(u16, DbgArg);
+no_macro_inputs!(u16, DbgArg, ());
 
 fn macro_matcher<I: MacroInputs, F: for<'i> MockFn<Inputs<'i> = I>>(pred: u32) -> Option<&'static dyn Fn(&mut Matching<F>)> {
     I::table::<F>(pred)
@@ -297,6 +301,14 @@ shape!(
 );
 
 shape!(
+    ref0,
+    inputs = (),
+    answer = dyn (for<'u> Fn(&'u Unimock) -> u64) + Send + Sync,
+    idx = |_i| 0,
+    closure = |uid, seg| move |u: &Unimock| run_prog(ProgKind::Answer { uid, seg }, 0, 0, &mut ref_port(u))
+);
+
+shape!(
     ref2,
     inputs = (u8, u8),
     answer = dyn (for<'u> Fn(&'u Unimock, u8, u8) -> u64) + Send + Sync,
@@ -376,10 +388,19 @@ fn clause_for(spec: &ClauseSpec, uids: &[u16]) -> DynClause {
         M::S2 => ref1::clause(SkipMock::s2, spec, uids),
         M::D0 => dbg1::clause(DbgTMock::d0, spec, uids),
         M::Vu => val1::clause(ByValUMock::vu, spec, uids),
+        M::V2Req => val1::clause(ByVal2Mock::v2_req, spec, uids),
+        M::V2Prov => val1::clause(ByVal2Mock::v2_prov, spec, uids),
+        M::Rc2Req => rc1::clause(ByRc2Mock::rc2_req, spec, uids),
+        M::Rc2Prov => rc1::clause(ByRc2Mock::rc2_prov, spec, uids),
+        M::Arc2Req => arc1::clause(ByArc2Mock::arc2_req, spec, uids),
+        M::Arc2Prov => arc1::clause(ByArc2Mock::arc2_prov, spec, uids),
         M::RcU => rc1::clause(ByRcUMock::rcu, spec, uids),
         M::Show => panic!("FmtT::show is only used unmentioned"),
-        other @ (M::LendA | M::LendB | M::LendMut | M::Lent | M::LendClone | M::LendVia | M::LendViaMut | M::OwnSingle | M::OwnMulti
-        | M::OwnOpt | M::OwnRes | M::OwnTup | M::OwnTup1 | M::OwnVec | M::OwnTup3) => {
+        M::Z0 => ref0::clause(ZeroMock::z0, spec, uids),
+        M::GpU8 => opaque::clause_u8(|| GenMMock::gp.with_types::<u8>(), spec, uids),
+        M::GpU16 => opaque::clause_u16(|| GenMMock::gp.with_types::<u16>(), spec, uids),
+        other @ (M::LendA | M::LendB | M::LendMut | M::Lent | M::LendClone | M::LendVia | M::LendViaMut | M::LendZ | M::OwnSingle | M::OwnMulti
+        | M::OwnOpt | M::OwnRes | M::OwnTup | M::OwnTup1 | M::OwnVec | M::OwnTup3 | M::OwnDeepOpt | M::OwnDeepPoll) => {
             panic!("{other:?} is configured through Config::specials")
         }
         M::Af => ref1::clause(AsyncAMock::af, spec, uids),
@@ -424,8 +445,11 @@ mod opaque {
                 let p = &spec.patterns[0];
                 let uid = uids[0];
                 let pred = p.pred;
+                let has = p.has_matcher;
                 let matcher = move |m: &mut Matching<F>| {
-                    m.func(move |i: &$t, _| matcher_body(uid, pred, arg_index(*i as u8, 0)));
+                    if has {
+                        m.func(move |i: &$t, _| matcher_body(uid, pred, arg_index(*i as u8, 0)));
+                    }
                     m.pat_debug(pat_name(uid), "cfg", uid as u32);
                 };
                 let seg = &p.segs[0];
@@ -567,6 +591,7 @@ fn special_clause(sp: &Special) -> DynClause {
                 .answers(&|u, _| u.make_mut(ValA::new(&tl_tracker(), tl_val_id()))),
         ),
         Special::Lent { id } => DynClause::new(LendMock::lent.each_call(matching!(_)).returns(Tracked::new(&tracker, *id))),
+        Special::LendZ => DynClause::new(LendMock::lend_z.each_call(matching!(_)).answers(&|u, _| u.make_ref(ZTok::new()))),
         Special::LendClone => DynClause::new(
             LendMock::lend_clone
                 .each_call(matching!(_))
@@ -632,6 +657,16 @@ fn special_clause(sp: &Special) -> DynClause {
             OwnMock::own_tup3
                 .some_call(matching!(_))
                 .returns((7u32, Tracked::new(&tracker, *id), Tracked::new(&tracker, *id + 1))),
+        ),
+        Special::OwnDeepOpt { id } => DynClause::new(
+            OwnMock::own_deep_opt
+                .some_call(matching!(_))
+                .returns(Some(Err::<u32, _>(Tracked::new(&tracker, *id)))),
+        ),
+        Special::OwnDeepPoll { id } => DynClause::new(
+            OwnMock::own_deep_poll
+                .some_call(matching!(_))
+                .returns(std::task::Poll::Ready(Err::<u32, _>(Tracked::new(&tracker, *id)))),
         ),
         Special::OwnVec { id } => DynClause::new(
             OwnMock::own_vec
